@@ -440,6 +440,106 @@ def engine_rows(repo):
     return rows
 
 
+def _norm(e):
+    return re.sub(r"\s+", "", e)
+
+
+def _call_args(body, callee_regex):
+    """argument texts of every call matching callee_regex( ... ) in body (balanced parentheses)"""
+    out = []
+    for m in re.finditer(callee_regex + r"\s*\(", body):
+        i = m.end() - 1
+        depth = 0
+        j = i
+        while j < len(body):
+            if body[j] == "(":
+                depth += 1
+            elif body[j] == ")":
+                depth -= 1
+                if depth == 0:
+                    break
+            j += 1
+        out.append(body[i + 1:j])
+    return out
+
+
+def _split_top(args):
+    parts, depth, cur = [], 0, ""
+    for ch in args:
+        if ch in "([{<" and not (ch == "<" and False):
+            depth += 1 if ch != "<" else 0
+        if ch in ")]}":
+            depth -= 1
+        if ch == "," and depth == 0:
+            parts.append(cur)
+            cur = ""
+        else:
+            cur += ch
+    parts.append(cur)
+    return [p.strip() for p in parts]
+
+
+def arg_rows(src):
+    """expressions that carry the 'in time' and 'requested arguments' clauses of C04: what connectSync waits for and passes to
+    the engine, and how connectSyncCancellable computes its deadline and sub-timeouts. (kind, name, normalised expression)"""
+    cs = blank_strings(method_body(src, r"\bTransport::connectSync\s*\(", "Transport::connectSync"))
+    row = []
+    waits = _call_args(cs, r"op->cv\s*\.\s*wait_for")
+    if len(waits) != 1:
+        raise TranslateError("connectSync: expected exactly one op->cv.wait_for, found %d" % len(waits))
+    wa = _split_top(waits[0])
+    row.append(("expr", "wait_for.lock", _norm(wa[0])))
+    row.append(("expr", "wait_for.timeout", _norm(wa[1])))
+    row.append(("expr", "wait_for.pred", _norm(wa[2])[:60] if len(wa) > 2 else "-"))
+    for a in _call_args(cs, r"engine\s*->\s*connect"):
+        row.append(("expr", "engine.connect.args", _norm(a)))
+    for a in _call_args(cs, r"engine\s*->\s*close"):
+        row.append(("expr", "engine.close.args", _norm(a)))
+    m = re.search(r"if\s*\(\s*result\s*\.\s*isErr\s*\(\s*\)\s*\)\s*\{([^{}]*)\}", cs)
+    if not m:
+        raise TranslateError("connectSync: the engine->connect error branch `if (result.isErr()) { … }` was not found")
+    row.append(("expr", "connect.errbranch", _norm(m.group(1))))
+    m = re.search(r"SessionId\s+sid\s*=\s*([^;]+);", cs)
+    if not m:
+        raise TranslateError("connectSync: `SessionId sid = …;` not found")
+    row.append(("expr", "sid", _norm(m.group(1))))
+    for m in re.finditer(r"return\s+ConnectResult::ok\s*\(([^)]*)\)", cs):
+        row.append(("expr", "return.ok", _norm(m.group(1))))
+    m = re.search(r"if\s*\(\s*op->done\s*\)\s*\{\s*return\s+([^;]+);", cs)
+    if not m:
+        raise TranslateError("connectSync: `if (op->done) { return …; }` not found")
+    row.append(("expr", "return.done", _norm(m.group(1))))
+    rows = [("connectSync.args", row)]
+    cc = blank_strings(method_body(src, r"\bITransport::connectSyncCancellable\s*\(", "ITransport::connectSyncCancellable"))
+    row = []
+    m = re.search(r"subInterval\s*=\s*([^;]+);", cc)
+    if not m:
+        raise TranslateError("connectSyncCancellable: subInterval not found")
+    row.append(("expr", "subInterval", _norm(m.group(1))))
+    m = re.search(r"auto\s+deadline\s*=\s*([^;]+);", cc)
+    if not m:
+        raise TranslateError("connectSyncCancellable: deadline not found")
+    row.append(("expr", "deadline", _norm(m.group(1))))
+    m = re.search(r"auto\s+remaining\s*=\s*([^;]+);", cc)
+    if not m:
+        raise TranslateError("connectSyncCancellable: initial remaining not found")
+    row.append(("expr", "remaining0", _norm(m.group(1))))
+    for m in re.finditer(r"(?<![\w])remaining\s*=\s*([^;]+);", cc):
+        if "auto" in cc[max(0, m.start() - 6):m.start()]:
+            continue
+        row.append(("expr", "remaining", _norm(m.group(1))))
+    for m in re.finditer(r"subTimeout\s*=\s*([^;]+);", cc):
+        row.append(("expr", "subTimeout", _norm(m.group(1))))
+    for a in _call_args(cc, r"(?<![\w:>.])connectSync"):
+        row.append(("expr", "connectSync.args", _norm(a)))
+    m = re.search(r"while\s*\(([^{]*)\)\s*\{", cc)
+    if not m:
+        raise TranslateError("connectSyncCancellable: loop condition not found")
+    row.append(("expr", "while", _norm(m.group(1))))
+    rows.append(("connectSyncCancellable.args", row))
+    return rows
+
+
 def gen(repo):
     src = read(repo, FILE)
     types = read(repo, TYPES)
@@ -478,6 +578,7 @@ def gen(repo):
     grm = skeleton(method_body(src, r"\bTransport::getReadMode\s*\(", "Transport::getReadMode"), "getReadMode")
     rows.append(("getReadMode", grm))
     rows += engine_rows(repo)
+    rows += arg_rows(src)
     # condition variables of the layer: exactly SyncConnectOp::cv, SyncReceiveBuffer::cv, teardownCv
     ncv = len(re.findall(r"std::condition_variable\s+\w+\s*;", impl))
     if ncv != 3:
